@@ -1,13 +1,11 @@
-"""C07(c): similarity with a symbolic factor, exact arithmetic (placeholder
-until the exact engine lands: records nothing)."""
+"""C07(c): similarity with a symbolic factor, exact arithmetic."""
 
 
 def run_exact(run):
-    try:
-        from ..symnp import exact  # noqa: F401
-    except Exception:
-        run.note("C07(c) exact-arithmetic similarity obligations: engine not built yet")
-        return
     from . import _c07_exact
 
     _c07_exact.run_exact(run)
+    from . import C05
+
+    L, mod = C05.load_exact()
+    run.encode("bldfm.solver", "ivp_solver (exact mode, symbolic similarity factor)", L.function_source("solver", "ivp_solver"))
